@@ -690,11 +690,46 @@ def check(run: Run) -> None:
                 run.finding("C14.j", f"{fd_.name}:no-stop-of-replaced-branch", f"{fd_.qual} clears the active slot but never stops the graph it looked up", loc=fa_.loc(fa_.body))
         run.sites(n_fn, 2, "functions that clear the active slot")
 
+    with run.obligation("C14.k", "K2", "reduce_: a structural rebuild that fails half-way stops every combiner it had already created and started, in BOTH shapes of the rebuild (same "
+                        "bank; capacity growth into the inactive bank): every path through the rollback guard of rebuild_structure passes through a loop over `created` that "
+                        "resets (stops + destroys) each entry - the abandoned bank is not reachable from storage.combiners, so reduce_node_stop would never visit it"):
+        fa = R.fn(run, RT + "reduce_node.cpp", "rebuild_structure")
+        guards = [d for d in R.find(fa, lambda x: isinstance(x, C.Declarator) and x.name == "rollback" and x.init is not None)]
+        run.sites(len(guards), 1, "rollback guard of rebuild_structure")
+        lams = [x for x in guards[0].init.walk() if isinstance(x, C.Lambda)]
+        run.sites(len(lams), 1, "rollback lambda")
+        body = lams[0].body
+        cn = R.Canon()
+
+        def resets_created(node):
+            return any(isinstance(l, C.RangeFor) and cn(l.range) == "created" and R.calls(l.body, "reset_combiner_noexcept") for l in node.walk())
+
+        def every_path_resets(stmts):
+            """syntactic must-analysis over the guard body: a reset loop at this level covers everything after it; an `if` that returns must reset inside."""
+            for st in stmts:
+                if isinstance(st, C.RangeFor) and resets_created(st):
+                    return True
+                if isinstance(st, C.If):
+                    arms = [st.then] + ([st.els] if st.els is not None else [])
+                    for arm in arms:
+                        exits = any(isinstance(x, C.Return) for x in arm.walk())
+                        if exits and not every_path_resets(arm.stmts if isinstance(arm, C.Block) else [arm]):
+                            return False
+                if isinstance(st, C.Return):
+                    return False
+            return False
+        run.count(1, "C14.k")
+        if not every_path_resets(body.stmts):
+            run.finding("C14.k", "rebuild_structure:rollback-path-keeps-created-combiners", "a path through the rollback guard of rebuild_structure leaves without resetting the combiners "
+                        "recorded in `created`: after a failed growth the replacement combiners already started in the inactive bank keep running until the storage is destroyed "
+                        "at executor release", loc=fa.loc(lams[0]))
+
 
 ANYARGS = ("anyargs",)
 
 
 VARIANTS = [
+    {"id": "k-seed-C14-7-bank-change-rollback-keeps-created", "expect": "C14.k", "edits": [{"file": RT + "reduce_node.cpp", "find": "                if (bank_changed)\n                {\n                    for (const std::size_t position : created)\n                    {\n                        reset_combiner_noexcept(current_bank, position);\n                    }\n                    storage.combiners    = std::move(retired_shape);", "replace": "                if (bank_changed)\n                {\n                    storage.combiners    = std::move(retired_shape);"}]},
     {"id": "j-seed-C14-6-lookup-after-reset", "expect": "C14.j", "edits": [{"file": RT + "switch_node.cpp", "find": "    GraphValue *active = storage.active_graph();\n    bind_branch_output(view, context, spec, next, evaluation_time, true);\n    if (active != nullptr && active->has_value()) {\n      active->view().stop(evaluation_time);\n    }\n    storage.previous_slot = storage.active_slot;\n    storage.active_slot.reset();\n    storage.active_key = Value{};\n    storage.active_spec = nullptr;", "replace": "    bind_branch_output(view, context, spec, next, evaluation_time, true);\n    storage.previous_slot = storage.active_slot;\n    storage.active_slot.reset();\n    storage.active_key = Value{};\n    storage.active_spec = nullptr;\n    if (GraphValue *active = storage.active_graph();\n        active != nullptr && active->has_value()) {\n      active->view().stop(evaluation_time);\n    }"}]},
     {"id": "i-retired-generation-stopped-with-new-count", "expect": "C14.i", "edits": [{"file": "src/hgraph/runtime/ordered_reduce_node.cpp", "find": "            storage.stop_generation(old_bank, old_count);\n            storage.current_bank = next_bank;\n            storage.live_count = next_count;\n", "replace": "            storage.current_bank = next_bank;\n            storage.live_count = next_count;\n            storage.stop_generation(old_bank, storage.live_count);\n"}]},
     {"id": "i-twin-stop-after-commit-with-snapshots", "expect": None, "edits": [{"file": "src/hgraph/runtime/ordered_reduce_node.cpp", "find": "            storage.stop_generation(old_bank, old_count);\n            storage.current_bank = next_bank;\n            storage.live_count = next_count;\n", "replace": "            storage.current_bank = next_bank;\n            storage.live_count = next_count;\n            storage.stop_generation(old_bank, old_count);\n"}]},
